@@ -36,8 +36,9 @@ func runC13(c *kit.Ctx) {
 
 	// ---- R13.1 adoption gate
 	{
-		// hash-equality fact; remember the hasher and the Sum call
-		var sumCalls []*ssa.Call
+		// hash-equality fact (function-agnostic: matched by shape), remembering
+		// the Sum call per function
+		sumCallOf := map[*ssa.Function]*ssa.Call{}
 		isHashEq := func(e *kit.Expr) (*ssa.Call, bool) {
 			if !e.IsCallTo(bytesEqual) || len(e.Args) != 2 {
 				return nil, false
@@ -52,33 +53,41 @@ func runC13(c *kit.Ctx) {
 			}
 			return nil, false
 		}
-		hashOK := c.AtomFlow(h, func(a kit.Atom) bool {
-			return a.IsTrue(func(e *kit.Expr) bool {
-				call, ok := isHashEq(e)
-				if ok {
-					sumCalls = append(sumCalls, call)
+		hashSpec := &kit.Spec{P: c.Prog, Deep: kit.DefaultDeep,
+			Edge: func(a kit.Atom) bool {
+				return a.IsTrue(func(e *kit.Expr) bool {
+					call, ok := isHashEq(e)
+					if ok {
+						sumCallOf[call.Parent()] = call
+					}
+					return ok
+				})
+			},
+			Instr: func(ins ssa.Instruction, in bool) bool {
+				if !in {
+					return false
 				}
-				return ok
-			})
-		}, func(ins ssa.Instruction) bool {
-			// the assembly buffer must not change between hashing and use
-			if c.KillsField(ins, fIDBytes) {
+				// the assembly buffer must not change between hashing and use
+				if c.KillsField(ins, fIDBytes) {
+					return false
+				}
+				if cc := kit.CallOf(ins); cc != nil && isBuiltin(cc, "copy") {
+					if kit.Canon(cc.Args[0]).Mentions(func(x *kit.Expr) bool { return x.IsField(fIDBytes) }) {
+						return false
+					}
+				}
 				return true
-			}
-			if cc := kit.CallOf(ins); cc != nil && isBuiltin(cc, "copy") {
-				return kit.Canon(cc.Args[0]).Mentions(func(x *kit.Expr) bool { return x.IsField(fIDBytes) })
-			}
-			return false
-		})
-		// which buffer was hashed: h.Write(X) before Sum on a fresh sha1.New()
+			}}
+		// which buffer was hashed: h.Write(X) exactly once before Sum on a fresh sha1.New()
 		hashedBuf := func(sum *ssa.Call) (*kit.Expr, bool) {
-			hv := sum.Call.Value // hasher interface value
+			fn := sum.Parent()
+			hv := sum.Call.Value
 			if !kit.Canon(hv).IsCallTo(sha1New) {
 				return nil, false
 			}
 			var buf *kit.Expr
 			writes := 0
-			kit.Instrs(h, func(ins ssa.Instruction) {
+			kit.Instrs(fn, func(ins ssa.Instruction) {
 				cc := kit.CallOf(ins)
 				if cc != nil && cc.IsInvoke() && cc.Value == hv && cc.Method.Name() == "Write" {
 					writes++
@@ -93,6 +102,71 @@ func runC13(c *kit.Ctx) {
 			}
 			return buf, true
 		}
+		// a use of bytes inside a helper is traced to the expression at the helper's call sites
+		type ctxPoint struct {
+			at    ssa.Instruction
+			bytes *kit.Expr
+		}
+		var resolve func(at ssa.Instruction, e *kit.Expr, depth int) ([]ctxPoint, bool)
+		resolve = func(at ssa.Instruction, e *kit.Expr, depth int) ([]ctxPoint, bool) {
+			e = e.Strip()
+			fn := at.Parent()
+			if p, ok := e.V.(*ssa.Parameter); ok && e.Kind == "param" && depth > 0 {
+				idx := -1
+				for i, q := range fn.Params {
+					if q == p {
+						idx = i
+					}
+				}
+				sites := c.StaticCallSites(fn)
+				if idx < 0 || len(sites) == 0 {
+					return nil, false
+				}
+				var out []ctxPoint
+				for _, site := range sites {
+					if site == nil {
+						return nil, false
+					}
+					sub, ok := resolve(site, kit.Canon(site.(*ssa.Call).Call.Args[idx]), depth-1)
+					if !ok {
+						return nil, false
+					}
+					out = append(out, sub...)
+				}
+				return out, true
+			}
+			return []ctxPoint{{at, e}}, true
+		}
+		checkUse := func(at ssa.Instruction, bytesArg *kit.Expr) (bool, string) {
+			pts, ok := resolve(at, bytesArg, 2)
+			if !ok || len(pts) == 0 {
+				return false, "the bytes used cannot be traced to the info downloader's assembly buffer"
+			}
+			for _, pt := range pts {
+				if !hashSpec.Holds(pt.at, 2) {
+					return false, "not dominated by bytes.Equal(sha1(assembled), infoHash)==true on every path"
+				}
+				sum := sumCallOf[pt.at.Parent()]
+				if sum == nil {
+					// the comparison may live one level up: accept only if the bytes are a plain field path
+					for f, sc := range sumCallOf {
+						_ = f
+						sum = sc
+					}
+				}
+				if sum == nil {
+					return false, "no hash comparison found"
+				}
+				buf, ok := hashedBuf(sum)
+				if !ok || !buf.IsField(fIDBytes) {
+					return false, "the hashed bytes are not exactly the info downloader's assembly buffer fed once to a fresh sha1"
+				}
+				if !(pt.bytes.IsField(fIDBytes) && (sum.Parent() != pt.at.Parent() || pt.bytes.Base().V == buf.Base().V)) {
+					return false, "bytes used (" + pt.bytes.String() + ") are not the bytes hashed (" + buf.String() + ")"
+				}
+			}
+			return true, ""
+		}
 		n := 0
 		for _, st := range fieldStores(c, fInfo) {
 			key := k.key(st.Fn, "store torrent.info")
@@ -100,45 +174,43 @@ func runC13(c *kit.Ctx) {
 				c.Present("R13.1", key, posOf(st.Store), "constructor (metainfo given by the user / resume data)")
 				continue
 			}
-			if st.Fn != h {
-				c.Bad("R13.1", key, posOf(st.Store), "torrent.info assigned outside the constructor and handleMetadataMessage")
-				continue
-			}
 			n++
-			if !hashOK.Before(st.Store) {
-				c.Bad("R13.1", key, posOf(st.Store), "metadata adopted without bytes.Equal(sha1(assembled), infoHash)==true on every path")
-				continue
-			}
-			if len(sumCalls) == 0 {
-				c.Bad("R13.1", key, posOf(st.Store), "no hash comparison found")
-				continue
-			}
-			buf, ok := hashedBuf(sumCalls[0])
-			if !ok || !buf.IsField(fIDBytes) {
-				c.Bad("R13.1", key, posOf(st.Store), "the hashed bytes are not exactly the info downloader's assembly buffer fed once to a fresh sha1")
-				continue
-			}
-			// stored value = parseInfo(sameBuf)#0
 			v := kit.Canon(st.Val)
 			if !(v.Kind == "extract" && v.Idx == 0 && v.Args[0].IsCallTo(parseInfo)) {
 				c.Bad("R13.1", key, posOf(st.Store), "adopted info %s is not the result of Session.parseInfo", v)
 				continue
 			}
-			parsed := v.Args[0].Args[1]
-			if !(parsed.IsField(fIDBytes) && parsed.Base().V == buf.Base().V) {
-				c.Bad("R13.1", key, posOf(st.Store), "bytes parsed (%s) are not the bytes hashed (%s)", parsed, buf)
-				continue
+			// solve the spec once on the functions involved so that sumCallOf is filled
+			hashSpec.Holds(st.Store, 2)
+			ok, why := checkUse(st.Store, v.Args[0].Args[1])
+			if ok {
+				c.OK("R13.1", key, posOf(st.Store), "t.info = parseInfo(assembled bytes) only under bytes.Equal(sha1(same bytes), t.infoHash)==true (caller context included)")
+			} else {
+				c.Bad("R13.1", key, posOf(st.Store), "metadata adopted without the hash gate: %s", why)
 			}
-			c.OK("R13.1", key, posOf(st.Store), "t.info = parseInfo(%s) under bytes.Equal(sha1(%s), t.infoHash)==true", parsed, buf)
 		}
 		c.Floor("R13.1", "info adoption sites", n, 1)
-		// parse and persist are behind the same gate
-		kit.Instrs(h, func(ins ssa.Instruction) {
-			if kit.CallsAny(ins, parseInfo, writeInfo) {
-				c.Check(hashOK.Before(ins), "R13.1", k.key(h, "parse/persist"), posOf(ins),
-					"parse / persist of fetched metadata only after the hash comparison succeeded", "fetched metadata parsed or persisted before the hash comparison")
+		// parse and persist of fetched metadata are behind the same gate, wherever they are
+		reach := c.Reach([]*ssa.Function{h}, false, func(f *ssa.Function) bool { return !inPkg(f, c, "torrent") })
+		for fn := range reach {
+			if fn.Blocks == nil || !inPkg(fn, c, "torrent") {
+				continue
 			}
-		})
+			kit.Instrs(fn, func(ins ssa.Instruction) {
+				if !kit.CallsAny(ins, parseInfo, writeInfo) {
+					return
+				}
+				if _, isCall := ins.(*ssa.Call); !isCall {
+					return
+				}
+				// only uses that belong to the metadata road (reachable from the handler through this function)
+				if fn != h && len(c.StaticCallSites(fn)) == 0 {
+					return
+				}
+				c.Check(hashSpec.Holds(ins, 2), "R13.1", k.key(fn, "parse/persist"), posOf(ins),
+					"parse / persist of fetched metadata only after the hash comparison succeeded", "fetched metadata parsed or persisted before the hash comparison")
+			})
+		}
 		// infoHash never re-assigned after construction
 		for _, st := range fieldStores(c, fInfoHash) {
 			if st.Fn != newTorrent {
@@ -149,13 +221,14 @@ func runC13(c *kit.Ctx) {
 
 	// ---- R13.4 private refused
 	{
-		notPrivate := c.FieldBool(h, fPrivate, false)
-		kit.Instrs(h, func(ins ssa.Instruction) {
-			if _, ok := kit.StoresField(ins, fInfo); ok {
-				c.Check(notPrivate.Before(ins), "R13.4", k.key(h, "adopt non-private"), posOf(ins),
-					"metadata adopted only under info.Private==false", "metadata fetched through a magnet link is adopted although it may be private")
+		notPrivate := c.FieldBoolSpec(fPrivate, false, kit.DefaultDeep)
+		for _, st := range fieldStores(c, fInfo) {
+			if st.Fn == newTorrent {
+				continue
 			}
-		})
+			c.Check(notPrivate.Holds(st.Store, 2), "R13.4", k.key(st.Fn, "adopt non-private"), posOf(st.Store),
+				"metadata adopted only under info.Private==false", "metadata fetched through a magnet link is adopted although it may be private")
+		}
 	}
 
 	// ---- R13.2 size cap and eligibility
